@@ -42,6 +42,11 @@ def run(chk, replay=None):
         log('replay: re-running the whole workload with the recorded seed', r.get('seed'))
         chk.seed = r.get('seed', chk.seed); nfiles = r.get('nfiles', nfiles)
     rc, lines, err = run_lines(hx, [res, str(chk.seed), str(nfiles)], [], timeout=3000)
+    # generated import worlds with fault scenarios, in a scratch directory outside /repo and /verif
+    wdir = tempfile.mkdtemp(prefix='verif-worlds-')
+    chk.scratch.append(wdir)
+    rcw, wlines, werr = run_lines(hx, ['worlds', wdir], [], timeout=3000)
+    lines += wlines
     L = [l for l in lines if l.startswith('L ')]
     O = [l for l in lines if l.startswith('O ')]
     A = [l for l in lines if l.startswith('A ')]
@@ -78,9 +83,6 @@ def run(chk, replay=None):
                    enumeration_values_checked=len(enums), crashed_scenarios=X)
     if X:
         log('note: %d scenario(s) crashed inside the library (memory safety belongs to C01/C07, not to C15): %s' % (len(X), X[:2]))
-    for l, o, m in disagree[:3]:
-        chk.violation('logger model and implementation disagree (correspondence `logger` broken): trace %s impl %s model %s' % (l, o, m),
-                      {'kind': 'correspondence', 'engine': 'logger', 'seed': chk.seed, 'nfiles': nfiles, 'trace': l, 'impl': o, 'model': m}, False)
     kf = [f for f in known_findings()['findings'] if f['property'] == 'C15']
     seen = set()
     for a in A:
@@ -91,5 +93,9 @@ def run(chk, replay=None):
         known = [f for f in kf if f['match'] in a]
         if known:
             chk.known_finding(known[0]['what'])
-        else:
+        elif len([v for v in chk.violations if v[2]]) < 3:
             chk.violation('implementation fails the coherence/audit oracle: ' + a[2:], {'kind': 'oracle', 'engine': 'logger', 'seed': chk.seed, 'nfiles': nfiles, 'failure': a}, True)
+    if not any(v[2] for v in chk.violations):
+        for l, o, m in disagree[:3]:
+            chk.violation('logger model and implementation disagree (correspondence `logger` broken): trace %s impl %s model %s' % (l, o, m),
+                          {'kind': 'correspondence', 'engine': 'logger', 'seed': chk.seed, 'nfiles': nfiles, 'trace': l, 'impl': o, 'model': m}, False)
